@@ -23,12 +23,12 @@ structure SealTotalPre (env : Env) (s : State) : Prop where
       pools: since the `fix:` for finding F23 one that records no liquidity is created afresh by `create_builtins`
       (the former assumption `builtins`, that an existing builtin pool has reserves and liquidity, is gone) -/
   poolsSane : ∀ k p, s.pools.get k = some p → (p.liqs ≠ 0 → 0 < p.lefts ∧ 0 < p.rights)
-  /-- liquidity tokens held never reach a builtin pool's whole liquidity (C16; excluded: faucet-minted tokens,
-      K-faucet-liq). Stated for the pools after `create_builtins`, so that it also covers a builtin pool
-      created (with the nobody-owned default liquidity) by this very seal. -/
-  builtinsNotDrained : ∀ k ∈ [poolMelSym, poolMelErg, poolErgSym], ∀ p, (createBuiltins s).pools.get k = some p →
-      ((s.txs.filter fun tx => tx.kind = .liqWithdraw ∧ canonicalPoolKey tx.data = some k).map
-        fun tx => (tx.outputs.headD default).value).sum < p.liqs
+  -- (the former field `builtinsNotDrained` — "liquidity tokens withdrawn in this block never reach a builtin pool's
+  -- whole liquidity" — is gone since the `fix:` for finding F24: it was false of reachable states (the only holder
+  -- of a pre-TIP-902 ERG/SYM pool withdraws everything after the activation; faucet-minted tokens, K-faucet-liq),
+  -- and it is no longer needed: a request for more than the pool's liquidity is skipped by the guard of
+  -- `process_withdrawals_for_single_pool`, one for exactly all of it empties the pool, and `create_builtins` runs
+  -- again before pegging and the subsidy read the pool's price. `liqsU128` below was only used together with it.)
   /-- supply bound: fee pool and tips, the MEL reserve of the MEL/SYM pool and the MEL paid into pools by
       this block are far below 2^128 -/
   feeBound : s.feePool + s.tips + 2 ^ 21 ≤ 2 ^ 127
@@ -80,25 +80,42 @@ theorem C09_swaps_total (s : State) : ∀ c, processSwaps s ≠ .crash c := by
 theorem C09_seal_total (env : Env) (s : State) (a : Option ProposerAction) (hp : SealTotalPre env s) :
     ∀ c, sealState env s a ≠ .crash c := by
   obtain ⟨ss, h⟩ := sealState_ok env s a hp.counts hp.faithfulCov hp.txHashes hp.poolsSane
-    hp.builtinsNotDrained hp.reserveBound hp.liqsU128 hp.melInflowBound hp.feeBound hp.height
+    hp.reserveBound hp.melInflowBound hp.feeBound hp.height
   exact Outcome.ne_crash_of_ok h
 
 /-- in fact sealing succeeds (nothing in it rejects) -/
 theorem C09_seal_ok (env : Env) (s : State) (a : Option ProposerAction) (hp : SealTotalPre env s) :
     ∃ ss, sealState env s a = .ok ss :=
   sealState_ok env s a hp.counts hp.faithfulCov hp.txHashes hp.poolsSane
-    hp.builtinsNotDrained hp.reserveBound hp.liqsU128 hp.melInflowBound hp.feeBound hp.height
+    hp.reserveBound hp.melInflowBound hp.feeBound hp.height
+
+theorem mem_builtinsOf_of_builtinKeys {s : State} {k : PoolKey} (h : k ∈ builtinKeys s) :
+    k ∈ builtinsOf s.tip902 := by
+  unfold builtinKeys at h
+  unfold builtinsOf
+  cases ht : s.tip902 <;> simpa [ht] using h
+
+/-- **and the sealed state prices every builtin pool**: after the seal each builtin pool that is due (MEL/SYM, MEL/ERG,
+    and ERG/SYM once TIP-902 is active) exists with liquidity and reserves on both sides — also one whose whole
+    liquidity was redeemed in this very block (finding F24: it is made afresh before pegging) — and every pool that
+    records liquidity has reserves, so the next seal starts from `poolsSane` again -/
+theorem C09_seal_ok_priced (env : Env) (s : State) (a : Option ProposerAction) (hp : SealTotalPre env s) :
+    ∃ ss, sealState env s a = .ok ss ∧
+      (∀ k ∈ builtinKeys s, ∃ p, ss.st.pools.get k = some p ∧ p.liqs ≠ 0 ∧ 0 < p.lefts ∧ 0 < p.rights) ∧
+      (∀ k p, ss.st.pools.get k = some p → p.liqs ≠ 0 → 0 < p.lefts ∧ 0 < p.rights) := by
+  obtain ⟨ss, h, hpo⟩ := sealState_ok_pools env s a hp.counts hp.faithfulCov hp.txHashes hp.poolsSane
+    hp.reserveBound hp.melInflowBound hp.feeBound hp.height
+  refine ⟨ss, h, ?_, hpo.sane⟩
+  intro k hk
+  obtain ⟨p, hg, h1, h2, h3⟩ := hpo.builtins k (mem_builtinsOf_of_builtinKeys hk)
+  exact ⟨p, hg, by omega, h1, h2⟩
 
 /-- non-vacuity: the empty state of a fresh chain satisfies the assumptions -/
 example (env : Env) : SealTotalPre env (default : State) := by
-  refine ⟨?_, ?_, ?_, ?_, ?_, ?_, ?_, ?_, ?_, ?_⟩
+  refine ⟨?_, ?_, ?_, ?_, ?_, ?_, ?_, ?_, ?_⟩
   · intro h; exact absurd h (by decide)
   · intro tx htx; cases htx
   · intro k p h; cases h
-  · intro k _ p h
-    rcases createBuiltins_get default k with e | e
-    · rw [e] at h; cases h
-    · rw [e] at h; cases h; show 0 < builtinDefault.liqs; decide
   · decide
   · intro p h; cases h
   · decide
@@ -110,8 +127,6 @@ example (env : Env) : SealTotalPre env (default : State) := by
     emptied by its only depositor) satisfies the assumptions — before the `fix:` it did not (the assumption
     `builtins` failed) and pegging crashed on it (`C16_old_emptied_ergsym_crashes`) -/
 theorem C09_emptied_ergsym_pre (env : Env) : SealTotalPre env emptiedErgSymState := by
-  have hget : ∀ k ∈ [poolMelSym, poolMelErg, poolErgSym],
-      (createBuiltins emptiedErgSymState).pools.get k = some builtinDefault := by decide
   have hold : ∀ k p, emptiedErgSymState.pools.get k = some p →
       p = builtinDefault ∨ p = { lefts := 0, rights := 0, priceAccum := 7, liqs := 0 } := by
     intro k p h
@@ -123,17 +138,13 @@ theorem C09_emptied_ergsym_pre (env : Env) : SealTotalPre env emptiedErgSymState
     split at h
     · cases h; exact Or.inr rfl
     · cases h
-  refine ⟨?_, ?_, ?_, ?_, ?_, ?_, ?_, ?_, ?_, ?_⟩
+  refine ⟨?_, ?_, ?_, ?_, ?_, ?_, ?_, ?_, ?_⟩
   · intro h; exact absurd h (by decide)
   · intro tx htx; cases htx
   · intro k p h hl
     rcases hold k p h with rfl | rfl
     · decide
     · exact absurd rfl hl
-  · intro k hk p h
-    rw [hget k hk] at h; cases h
-    show 0 < builtinDefault.liqs
-    decide
   · decide
   · intro p h
     rcases hold _ p h with rfl | rfl <;> decide
@@ -148,6 +159,54 @@ theorem C09_emptied_ergsym_seals (env : Env) (a : Option ProposerAction) :
     ∃ ss, sealState env emptiedErgSymState a = .ok ss :=
   C09_seal_ok env _ a (C09_emptied_ergsym_pre env)
 
+/-- **non-vacuity exactly where sealing used to crash** (finding F24): the state `drainedErgSymState` (Props/C16.lean —
+    TIP-902 active, a user-opened ERG/SYM pool whose whole liquidity is redeemed by a withdrawal of the block)
+    satisfies the assumptions. It violates the former field `builtinsNotDrained` (5000 withdrawn = 5000 recorded), and
+    the old pipeline crashed on it (`C16_old_drained_ergsym_crashes`). -/
+theorem C09_drained_ergsym_pre (env : Env) : SealTotalPre env (drainedErgSymState env) := by
+  refine ⟨fun _ => drained_counts env, drained_faithful env, ?_, ?_, ?_, ?_, ?_, ?_, ?_⟩
+  · intro k p h hl
+    rcases drained_pools env k p h with rfl | rfl <;> decide
+  · show 0 + 0 + 2 ^ 21 ≤ 2 ^ 127
+    decide
+  · intro p h
+    rcases drained_pools env _ p h with rfl | rfl <;> decide
+  · show (if (liqTokenDenom env poolErgSym) = Denom.mel then 5000 else 0) + 0 ≤ 2 ^ 124
+    rw [if_neg (by intro e; cases e)]; decide
+  · intro k _ p h
+    rcases drained_pools env k p h with rfl | rfl <;> decide
+  · show ([[2]] : List Hash).Nodup
+    decide
+  · show 10 < TIP_909_HEIGHT + 128 * SUBSIDY_HALVING
+    decide
+
+/-- the former assumption `builtinsNotDrained` fails at that state: the block withdraws the ERG/SYM pool's whole
+    liquidity -/
+theorem C09_drained_ergsym_not_undrained (env : Env) :
+    ¬ ∀ k ∈ [poolMelSym, poolMelErg, poolErgSym], ∀ p,
+      (createBuiltins (drainedErgSymState env)).pools.get k = some p →
+      (((drainedErgSymState env).txs.filter fun tx => tx.kind = .liqWithdraw ∧ canonicalPoolKey tx.data = some k).map
+        fun tx => (tx.outputs.headD default).value).sum < p.liqs := by
+  intro h
+  have h1 := h poolErgSym (by simp) { lefts := 5000, rights := 7000, priceAccum := 0, liqs := 5000 } rfl
+  have hf : ((drainedErgSymState env).txs.filter fun tx =>
+      tx.kind = .liqWithdraw ∧ canonicalPoolKey tx.data = some poolErgSym) = [drainTx env] := by
+    show [drainTx env].filter _ = _
+    have hd : decide ((drainTx env).kind = .liqWithdraw ∧ canonicalPoolKey (drainTx env).data = some poolErgSym)
+        = true := decide_eq_true ⟨rfl, drained_canon⟩
+    simp only [List.filter, hd]
+  rw [hf] at h1
+  exact absurd h1 (by show ¬ ((5000 : Nat) + 0 < 5000); omega)
+
+/-- so sealing that state no longer crashes, whatever the environment and the proposer action, and leaves every builtin
+    pool priced -/
+theorem C09_drained_ergsym_seals (env : Env) (a : Option ProposerAction) :
+    ∃ ss, sealState env (drainedErgSymState env) a = .ok ss ∧
+      (∀ k ∈ builtinKeys (drainedErgSymState env),
+        ∃ p, ss.st.pools.get k = some p ∧ p.liqs ≠ 0 ∧ 0 < p.lefts ∧ 0 < p.rights) :=
+  let ⟨ss, h, hb, _⟩ := C09_seal_ok_priced env _ a (C09_drained_ergsym_pre env)
+  ⟨ss, h, hb⟩
+
 end Mel
 
 #print axioms Mel.C09_swap_total
@@ -158,5 +217,9 @@ end Mel
 #print axioms Mel.C09_swaps_total
 #print axioms Mel.C09_seal_total
 #print axioms Mel.C09_seal_ok
+#print axioms Mel.C09_seal_ok_priced
+#print axioms Mel.C09_drained_ergsym_pre
+#print axioms Mel.C09_drained_ergsym_not_undrained
+#print axioms Mel.C09_drained_ergsym_seals
 #print axioms Mel.C09_emptied_ergsym_pre
 #print axioms Mel.C09_emptied_ergsym_seals
